@@ -291,9 +291,16 @@ Definition lookup_join (left_outer : bool) (L R : side) : list (row * option row
   flat_map (fun l => emit left_outer l (filter (jf l) (lookup (fst l) R))) L.
 
 (* ------------------------------------------------------------------ *)
-(* (c) countAggKvIter: COUNT( * ) / COUNT(literal) counts every tuple, COUNT(col) skips NULL fields of a nullable column *)
-Definition count_fast_path (col : option nat) (rows : list row) : Z :=
+(* (c) countAggKvIter: COUNT( * ) / COUNT(literal) counts every tuple; COUNT(col) skips the tuples whose field |idx| is
+   NULL, where idx is the column's position among the key columns (key reference) or among the non-key columns.
+   For a keyless table the value tuple is (cardinality, columns...) and newCountAggregationKvIter does not shift idx
+   past the cardinality field (lookup_join.go and merge_join.go do): COUNT(first column) tests the cardinality, which
+   is never NULL, and COUNT(n-th column) tests the (n-1)-th column. *)
+Definition count_field (keyless : bool) (c : nat) (r : row) : cell :=
+  if keyless then nth c (Some 1 :: r) None else nth c r None.
+
+Definition count_fast_path (keyless : bool) (col : option nat) (rows : list row) : Z :=
   match col with
   | None => Z.of_nat (length rows)
-  | Some c => Z.of_nat (length (filter (fun r => negb (is_none (nth c r None))) rows))
+  | Some c => Z.of_nat (length (filter (fun r => negb (is_none (count_field keyless c r))) rows))
   end.
